@@ -142,6 +142,7 @@ type Run struct {
 	helperExp            map[string]string
 	helperSeen           map[string][]string
 	abortFromHook        bool
+	degraded             bool // a violation of another property was recorded; the run continues
 	hist                 []histOp
 }
 
@@ -202,11 +203,31 @@ func (r *Run) logf(format string, args ...any) {
 	}
 }
 
-func (r *Run) violate(v Violation) {
+// violate records a violation. A violation of the property under check (or any violation in the concurrent
+// profiles) ends the run: it returns true and the caller unwinds. A violation that only other properties state is
+// recorded and the run goes on, so that the check can still see what that defect does to ITS property later in the
+// history (on code where every property holds nothing is ever recorded, so this cannot raise a false alarm).
+func (r *Run) violate(v Violation) bool {
 	r.mu.Lock()
+	own := v.Has(r.plan.Prop) || r.plan.Profile == "snap" || r.plan.Profile == "conc" || r.plan.Prop == ""
+	if !own {
+		for _, e := range r.viols {
+			if e.Sig == v.Sig {
+				r.mu.Unlock()
+				return false
+			}
+		}
+		if len(r.viols) < 40 {
+			r.viols = append(r.viols, v)
+		}
+		r.degraded = true
+		r.mu.Unlock()
+		return false
+	}
 	r.viols = append(r.viols, v)
 	r.mu.Unlock()
 	r.s.Abort("violation")
+	return true
 }
 
 func (r *Run) bump(m *map[string]int, k string) {
@@ -366,7 +387,7 @@ func (r *Run) run() {
 	if r.s.harnessErr != "" {
 		res.HarnessErr = r.s.harnessErr
 	}
-	if res.HarnessErr == "" && len(r.viols) == 0 {
+	if res.HarnessErr == "" && !r.hasOwn() {
 		switch {
 		case strings.HasPrefix(res.Outcome, "deadlock"):
 			r.viols = append(r.viols, r.deadlockViolation(res.Outcome))
@@ -374,14 +395,30 @@ func (r *Run) run() {
 			res.HarnessErr = "step budget exhausted"
 		}
 	}
-	if res.HarnessErr == "" && len(r.viols) == 0 {
+	if res.HarnessErr == "" && !r.hasOwn() && res.Outcome == "" {
 		r.finalChecks()
+	}
+	if r.degraded && res.HarnessErr != "" {
+		// the harness tripped over a state it does not model after another property had already been violated:
+		// not harness trouble, the run simply ends there
+		res.HarnessErr = ""
 	}
 	res.Violations = r.viols
 	closed = true
 	if err := r.db.Close(); err != nil && res.HarnessErr == "" {
 		res.HarnessErr = "close: " + err.Error()
 	}
+}
+
+func (r *Run) hasOwn() bool {
+	r.mu.Lock()
+	defer r.mu.Unlock()
+	for _, v := range r.viols {
+		if v.Has(r.plan.Prop) || r.plan.Profile == "snap" || r.plan.Profile == "conc" {
+			return true
+		}
+	}
+	return false
 }
 
 func (r *Run) deadlockViolation(desc string) Violation {
@@ -559,7 +596,7 @@ func (r *Run) onQuiescent() {
 	r.mu.Lock()
 	ended := r.ended
 	force := r.forceChk
-	if (len(ended) == 0 && !force) || len(r.viols) > 0 {
+	if len(ended) == 0 && !force {
 		r.mu.Unlock()
 		return
 	}
@@ -652,10 +689,13 @@ func (r *Run) onQuiescent() {
 		return
 	}
 	if len(found) > 0 {
-		r.mu.Lock()
-		r.viols = append(r.viols, found...)
-		r.mu.Unlock()
-		r.s.Abort("violation")
+		stop := false
+		for _, v := range found {
+			if r.violate(v) {
+				stop = true
+			}
+		}
+		_ = stop
 	}
 }
 
@@ -989,9 +1029,10 @@ func (r *Run) execOp(a *attempt, ctx boltz.MutateContext, i int, op Op) error {
 	r.mu.Unlock()
 	if pv != nil {
 		r.bump(&r.res.Trans, op.K+"/"+op.S+"/panic/"+fired)
-		r.violate(Violation{Props: []string{"C07"}, Oracle: "op", Sig: "panic-in-op:" + fired + ":" + op.K + ":" + op.S,
-			Detail: fmt.Sprintf("%s: %s panicked instead of returning an error (fault: %s): %v", a.tr.id, op, orNone(fired), pv)})
-		panic(abortSig{})
+		if r.violate(Violation{Props: []string{"C07"}, Oracle: "op", Sig: "panic-in-op:" + fired + ":" + op.K + ":" + op.S,
+			Detail: fmt.Sprintf("%s: %s panicked instead of returning an error (fault: %s): %v", a.tr.id, op, orNone(fired), pv)}) {
+			panic(abortSig{})
+		}
 	}
 	outcome := "ok"
 	if res.err != nil {
@@ -1003,24 +1044,28 @@ func (r *Run) execOp(a *attempt, ctx boltz.MutateContext, i int, op Op) error {
 	switch {
 	case fired != "":
 		if res.err == nil {
-			r.violate(Violation{Props: []string{"C07"}, Oracle: "op", Sig: "fault-swallowed:" + fired + ":" + sigOp,
-				Detail: fmt.Sprintf("%s: a %s failure was raised inside %s but the operation reported success", a.tr.id, fired, op)})
-			panic(abortSig{})
+			if r.violate(Violation{Props: []string{"C07"}, Oracle: "op", Sig: "fault-swallowed:" + fired + ":" + sigOp,
+				Detail: fmt.Sprintf("%s: a %s failure was raised inside %s but the operation reported success", a.tr.id, fired, op)}) {
+				panic(abortSig{})
+			}
 		}
 	case exp.OK && res.err != nil:
-		r.violate(Violation{Props: r.propsForUnexpectedError(op), Oracle: "op", Sig: "unexpected-error:" + sigOp + ":" + classify(res.err),
-			Detail: fmt.Sprintf("%s: %s must succeed in the state reached by the committed history, got error: %v", a.tr.id, op, res.err)})
-		panic(abortSig{})
+		if r.violate(Violation{Props: r.propsForUnexpectedError(op), Oracle: "op", Sig: "unexpected-error:" + sigOp + ":" + classify(res.err),
+			Detail: fmt.Sprintf("%s: %s must succeed in the state reached by the committed history, got error: %v", a.tr.id, op, res.err)}) {
+			panic(abortSig{})
+		}
 	case !exp.OK && res.err == nil:
 		props := append([]string{"C07"}, propsForReject(exp.Why)...)
-		r.violate(Violation{Props: props, Oracle: "op", Sig: "accepted-invalid:" + sigOp + ":" + exp.Why,
-			Detail: fmt.Sprintf("%s: %s must be rejected (%s) but reported success", a.tr.id, op, exp.Why)})
-		panic(abortSig{})
+		if r.violate(Violation{Props: props, Oracle: "op", Sig: "accepted-invalid:" + sigOp + ":" + exp.Why,
+			Detail: fmt.Sprintf("%s: %s must be rejected (%s) but reported success", a.tr.id, op, exp.Why)}) {
+			panic(abortSig{})
+		}
 	case !exp.OK:
 		if !classAccepted(classify(res.err), exp.Classes) {
-			r.violate(Violation{Props: propsForReject(exp.Why), Oracle: "op", Sig: "wrong-error-class:" + sigOp + ":" + exp.Why,
-				Detail: fmt.Sprintf("%s: %s rejected (%s) with error %q (class %s), the property names %v", a.tr.id, op, exp.Why, res.err, classify(res.err), exp.Classes)})
-			panic(abortSig{})
+			if r.violate(Violation{Props: propsForReject(exp.Why), Oracle: "op", Sig: "wrong-error-class:" + sigOp + ":" + exp.Why,
+				Detail: fmt.Sprintf("%s: %s rejected (%s) with error %q (class %s), the property names %v", a.tr.id, op, exp.Why, res.err, classify(res.err), exp.Classes)}) {
+				panic(abortSig{})
+			}
 		}
 	}
 	if res.err != nil {
@@ -1036,14 +1081,16 @@ func (r *Run) execOp(a *attempt, ctx boltz.MutateContext, i int, op Op) error {
 		return res.err
 	}
 	if exp.Changed != nil && res.changed != nil && *exp.Changed != *res.changed {
-		r.violate(Violation{Props: []string{"C05"}, Oracle: "op", Sig: "link-changed-flag:" + op.K,
-			Detail: fmt.Sprintf("%s: %s reported changed=%v, expected %v", a.tr.id, op, *res.changed, *exp.Changed)})
-		panic(abortSig{})
+		if r.violate(Violation{Props: []string{"C05"}, Oracle: "op", Sig: "link-changed-flag:" + op.K,
+			Detail: fmt.Sprintf("%s: %s reported changed=%v, expected %v", a.tr.id, op, *res.changed, *exp.Changed)}) {
+			panic(abortSig{})
+		}
 	}
 	if exp.Count != nil && res.count != nil && *exp.Count != *res.count && !(*exp.Count <= 0 && *res.count <= 0) {
-		r.violate(Violation{Props: []string{"C05"}, Oracle: "op", Sig: "rc-count:" + op.K,
-			Detail: fmt.Sprintf("%s: %s returned count %d, expected %d", a.tr.id, op, *res.count, *exp.Count)})
-		panic(abortSig{})
+		if r.violate(Violation{Props: []string{"C05"}, Oracle: "op", Sig: "rc-count:" + op.K,
+			Detail: fmt.Sprintf("%s: %s returned count %d, expected %d", a.tr.id, op, *res.count, *exp.Count)}) {
+			panic(abortSig{})
+		}
 	}
 	r.mu.Lock()
 	a.events = append(a.events, exp.Events...)
@@ -1125,8 +1172,9 @@ func (r *Run) afterTx(tr *txRun, err error, panicked bool) {
 	r.mu.Unlock()
 	if last == nil {
 		if err == nil {
-			r.violate(Violation{Props: []string{"C07"}, Oracle: "tx", Sig: "success-without-body", Detail: tr.id + " returned nil although its body never ran"})
-			panic(abortSig{})
+			if r.violate(Violation{Props: []string{"C07"}, Oracle: "tx", Sig: "success-without-body", Detail: tr.id + " returned nil although its body never ran"}) {
+				panic(abortSig{})
+			}
 		}
 		return
 	}
@@ -1157,21 +1205,25 @@ func (r *Run) afterTx(tr *txRun, err error, panicked bool) {
 	case committed && last.mustFail != "":
 		// something failed inside the transaction (rejected operation, veto, storage error, caller error, panic,
 		// pre-commit action) and it committed nevertheless
-		r.violate(Violation{Props: []string{"C07"}, Oracle: "tx", Sig: "committed-despite-failure:" + tr.plan.Mode + ":" + last.mustFail,
-			Detail: fmt.Sprintf("%s (%s): a %s failure occurred inside the transaction, yet it committed (returned %v)", tr.id, tr.plan.Mode, last.mustFail, err)})
-		panic(abortSig{})
+		if r.violate(Violation{Props: []string{"C07"}, Oracle: "tx", Sig: "committed-despite-failure:" + tr.plan.Mode + ":" + last.mustFail,
+			Detail: fmt.Sprintf("%s (%s): a %s failure occurred inside the transaction, yet it committed (returned %v)", tr.id, tr.plan.Mode, last.mustFail, err)}) {
+			panic(abortSig{})
+		}
 	case err == nil && !committed:
-		r.violate(Violation{Props: []string{"C07"}, Oracle: "tx", Sig: "failure-not-reported:" + tr.plan.Mode + ":" + why,
-			Detail: fmt.Sprintf("%s (%s) returned nil but its transaction did not commit (failure: %s)", tr.id, tr.plan.Mode, why)})
-		panic(abortSig{})
+		if r.violate(Violation{Props: []string{"C07"}, Oracle: "tx", Sig: "failure-not-reported:" + tr.plan.Mode + ":" + why,
+			Detail: fmt.Sprintf("%s (%s) returned nil but its transaction did not commit (failure: %s)", tr.id, tr.plan.Mode, why)}) {
+			panic(abortSig{})
+		}
 	case err != nil && committed:
-		r.violate(Violation{Props: []string{"C07"}, Oracle: "tx", Sig: "error-after-commit:" + tr.plan.Mode,
-			Detail: fmt.Sprintf("%s (%s) returned %v although its transaction committed", tr.id, tr.plan.Mode, err)})
-		panic(abortSig{})
+		if r.violate(Violation{Props: []string{"C07"}, Oracle: "tx", Sig: "error-after-commit:" + tr.plan.Mode,
+			Detail: fmt.Sprintf("%s (%s) returned %v although its transaction committed", tr.id, tr.plan.Mode, err)}) {
+			panic(abortSig{})
+		}
 	case err != nil && why == "":
-		r.violate(Violation{Props: []string{"C07"}, Oracle: "tx", Sig: "unexplained-failure:" + tr.plan.Mode,
-			Detail: fmt.Sprintf("%s (%s) failed with %v although nothing in it failed", tr.id, tr.plan.Mode, err)})
-		panic(abortSig{})
+		if r.violate(Violation{Props: []string{"C07"}, Oracle: "tx", Sig: "unexplained-failure:" + tr.plan.Mode,
+			Detail: fmt.Sprintf("%s (%s) failed with %v although nothing in it failed", tr.id, tr.plan.Mode, err)}) {
+			panic(abortSig{})
+		}
 	}
 }
 
@@ -1182,14 +1234,16 @@ func (r *Run) finalChecks() {
 	r.forceChk = true
 	r.mu.Unlock()
 	r.onQuiescentFinal()
-	if len(r.viols) > 0 {
+	if r.hasOwn() {
 		return
 	}
 	if r.plan.Listeners {
-		r.viols = append(r.viols, r.ledger.Check()...)
+		for _, v := range r.ledger.Check() {
+			r.violate(v)
+		}
 	}
-	if len(r.viols) > 0 {
-		return
+	if r.hasOwn() || r.degraded {
+		return // the end-of-run integrity probe presumes a state every other oracle accepted
 	}
 	r.profileFinal()
 }
